@@ -3,7 +3,7 @@
 (A) MC_Walker (shared with C20): in the implementation-shaped DagWalker machine TLC checks
 FailureTransparent over every DAG shape and every failing node (and finds the counterexample in the
 configuration without the clean-up, the defect repaired by the `fix:` commit 065db3b).
-(B) TLC enumerates fault histories (Environment.tla: all sequences of length <= 3 over 6 good and 30
+(B) TLC enumerates fault histories (Environment.tla: all sequences of length <= 3 over 6 good and 32
 failing calls with at least one failing call; longer ones by simulation); the harness runs each on
 environment A and the history with the failing calls removed on twin B, then a fixed probe suite on
 both (reused parser / substituter / simplifier / serializer objects included).
@@ -108,7 +108,7 @@ def run(ck):
     ck.sample({"history": [names[c - 1] for c in evs[7]["h"]], "twin": [names[c - 1] for c in evs[7]["twin"]],
                "outcomes": evs[7]["outcomes"], "probe0_A": evs[7]["pa"][0]})
     ck.cov["exhaustive"] = False
-    ck.cov["rule"] = ("fault histories enumerated by TLC (all sequences of length <= 3 over 6 good + 30 failing calls with >= 1 failing "
+    ck.cov["rule"] = ("fault histories enumerated by TLC (all sequences of length <= 3 over 6 good + 32 failing calls with >= 1 failing "
                       "call; length <= 2 exhaustive, length 3 sampled (600 quick / 9000 thorough); simulated length 7) x 28 probes in two execution orders, twin run without the failing calls. "
                       "non-trivial = distinct histories in which at least one call actually raised")
     ck.assumptions += ["harness/envcalls.py catalogue of failing calls covers: ill-typed construction, sort-breaking substitution at 5 "
